@@ -12,6 +12,8 @@ from . import tr
 from .. import pathbase
 from ..tracer import Tracer, callback_params
 
+from .common import Guard  # noqa: E402
+
 PROP = 'C16'
 DECIDED = [
     'R1: detach before re-merge: a premerge implementation that returns a node fetched from the accumulated tree has removed it from that tree on the same path (exception: !clear returns the node it just emptied).',
@@ -328,11 +330,13 @@ def r5(repo, run):
 
 
 def check(repo, run, tier):
-    r1(repo, run)
-    r2(repo, run)
-    r3(repo, run)
-    r4(repo, run)
-    r5(repo, run)
+    g = Guard()
+    g(r1, repo, run)
+    g(r2, repo, run)
+    g(r3, repo, run)
+    g(r4, repo, run)
+    g(r5, repo, run)
+    g.done()
 
 
 def mutants(repo):
